@@ -143,6 +143,9 @@ private:
   void handle_ifdef_directive(const std::string &args, const YYLTYPE &loc);
   void handle_ifndef_directive(const std::string &args, const YYLTYPE &loc);
   void handle_if_directive(const std::string &args, const YYLTYPE &loc);
+  bool evaluate_ifdef_condition(const std::string &args, const YYLTYPE &loc);
+  bool evaluate_ifndef_condition(const std::string &args, const YYLTYPE &loc);
+  bool evaluate_if_condition(const std::string &args, const YYLTYPE &loc);
   void handle_include_directive(const std::string &args, const YYLTYPE &loc);
   void handle_pragma_directive(const std::string &args, const YYLTYPE &loc);
   void handle_error_directive(const std::string &args, const YYLTYPE &loc);
